@@ -306,3 +306,355 @@ func ruleLinkOwnStore(c *Ctx, rule string) {
 	c.CallSites(n)
 	c.Floor(rule, 30)
 }
+
+// ruleNoAliasingAppend (ALIASAPPEND): the result of append(x.f, …) on a slice held in a field is stored back
+// into that very field (growing the field) and nowhere else. Handing the result out, or keeping it in another
+// variable, shares the field's backing array whenever it has spare capacity: the next append through the field
+// overwrites what was handed out — between two indexes of one store, or between two goroutines using one store.
+func ruleNoAliasingAppend(c *Ctx, rule string, pkgs ...string) {
+	p := c.P
+	n, bad := 0, 0
+	for _, fn := range c.prodFuncs(pkgs...) {
+		for _, f := range allFuncsWithAnon(fn) {
+			for _, b := range f.Blocks {
+				for _, in := range b.Instrs {
+					call, ok := in.(*ssa.Call)
+					if !ok || len(call.Call.Args) == 0 {
+						continue
+					}
+					if bi, isB := call.Call.Value.(*ssa.Builtin); !isB || bi.Name() != "append" {
+						continue
+					}
+					src := call.Call.Args[0]
+					if sl, isSl := src.(*ssa.Slice); isSl && sl.Low == nil && sl.Max == nil {
+						if _, isArr := deref(sl.X.Type()).Underlying().(*types.Array); !isArr {
+							src = sl.X // x.f[:n] keeps the array
+						}
+					}
+					ld, ok := src.(*ssa.UnOp)
+					if !ok || ld.Op.String() != "*" {
+						continue
+					}
+					fa, ok := ld.X.(*ssa.FieldAddr)
+					if !ok {
+						continue
+					}
+					if _, local := fa.X.(*ssa.Alloc); local {
+						if al := fa.X.(*ssa.Alloc); !al.Heap {
+							continue // a struct on this function's own stack
+						}
+					}
+					fld, _ := fieldOfAddr(fa)
+					n++
+					// every use of the result: a store into the same field of the same object
+					okUse := true
+					var where ssa.Instruction = call
+					if refs := call.Referrers(); refs != nil {
+						for _, r := range *refs {
+							if _, isDbg := r.(*ssa.DebugRef); isDbg {
+								continue
+							}
+							st, isSt := r.(*ssa.Store)
+							if isSt && st.Val == ssa.Value(call) {
+								if fa2, isFa := st.Addr.(*ssa.FieldAddr); isFa {
+									if f2, _ := fieldOfAddr(fa2); sameVar(f2, fld) && fa2.X == fa.X {
+										continue
+									}
+								}
+							}
+							okUse = false
+							where = r
+						}
+					}
+					name := "?"
+					if fld != nil {
+						name = fld.Name()
+					}
+					if !okUse {
+						bad++
+					}
+					c.Analysed(FnName(fn))
+					c.Check(okUse, rule, FnName(f)+": append(…."+name+", …)", p.Pos(call.Pos()), "the grown slice is stored back into the field it was read from and used nowhere else",
+						"the result of appending to the slice held in field "+name+" is used elsewhere ("+describeInstr(where)+") instead of being stored back: with spare capacity in the field's backing array the value handed out is overwritten by the next append through the field — different users of the same object (two indexes of a store, two goroutines reading one store) see each other's elements")
+				}
+			}
+		}
+	}
+	_ = bad
+	c.CallSites(n)
+}
+
+// ruleConstNodesImmutable (C11.CONSTIMMUTABLE): the fields of the constant nodes are written only while the node
+// is being made (a store into an object allocated by the same function). A constant node may be shared — by an
+// interning listener, by a cached query, between the typed and the untyped tree — so rewriting one in place
+// (upper-casing a literal for icontains) changes what every other use of that literal denotes.
+func ruleConstNodesImmutable(c *Ctx, rule string) {
+	p := c.P
+	n, bad := 0, 0
+	for _, fn := range c.prodFuncs("ast") {
+		for _, f := range allFuncsWithAnon(fn) {
+			for _, b := range f.Blocks {
+				for _, in := range b.Instrs {
+					st, ok := in.(*ssa.Store)
+					if !ok {
+						continue
+					}
+					fa, ok := st.Addr.(*ssa.FieldAddr)
+					if !ok {
+						continue
+					}
+					nm := namedOf(deref(fa.X.Type()))
+					if nm == nil || !strings.HasSuffix(nm.Obj().Name(), "ConstNode") || nm.Obj().Pkg() == nil || nm.Obj().Pkg().Name() != "ast" {
+						continue
+					}
+					n++
+					base := fa.X
+					for {
+						inner, isFa := base.(*ssa.FieldAddr) // a constant node embedded in the node being made
+						if !isFa {
+							break
+						}
+						base = inner.X
+					}
+					_, fresh := base.(*ssa.Alloc)
+					if !fresh {
+						bad++
+					}
+					fld, _ := fieldOfAddr(fa)
+					fname := "?"
+					if fld != nil {
+						fname = fld.Name()
+					}
+					c.Analysed(FnName(fn))
+					c.Check(fresh, rule, FnName(f)+": write of "+nm.Obj().Name()+"."+fname, p.Pos(st.Pos()), "written while the node is being made", "a field of an existing constant node is overwritten: the node may be shared by other uses of the same literal (an interned literal, a cached query), which then denote the rewritten value, not the string that was written")
+				}
+			}
+		}
+	}
+	_ = bad
+	c.CallSites(n)
+}
+
+// ruleInArrayExact (INEXACT): membership in an array literal is element equality. The evaluators of the `in`
+// nodes (and what they call in the package) use no substring or join primitive: a joined haystack with a
+// separator is only equality while neither side can contain the separator, and every character can be written
+// through an escape.
+func ruleInArrayExact(c *Ctx, rule string) {
+	p := c.P
+	n := 0
+	for _, fn := range c.prodFuncs("ast") {
+		if fn.Signature.Recv() == nil || fn.Name() != "EvalBool" {
+			continue
+		}
+		nm := namedOf(fn.Signature.Recv().Type())
+		if nm == nil || !strings.HasPrefix(nm.Obj().Name(), "In") || !strings.Contains(nm.Obj().Name(), "Array") {
+			continue
+		}
+		n++
+		c.Analysed(FnName(fn))
+		found, pos := "", p.Pos(fn.Pos())
+		seen := map[*ssa.Function]bool{}
+		var walk func(f *ssa.Function, d int)
+		walk = func(f *ssa.Function, d int) {
+			if seen[f] || d > 3 || found != "" {
+				return
+			}
+			seen[f] = true
+			for _, g := range allFuncsWithAnon(f) {
+				for _, call := range callsIn(g) {
+					cal, _ := calleeOf(call.Common())
+					if cal != nil && cal.Pkg() != nil && (cal.Pkg().Path() == "strings" || cal.Pkg().Path() == "bytes") {
+						switch cal.Name() {
+						case "Contains", "Index", "HasPrefix", "HasSuffix", "ContainsAny", "Join", "Count", "LastIndex", "Cut":
+							if found == "" {
+								found, pos = cal.Pkg().Name()+"."+cal.Name(), p.Pos(call.Pos())
+							}
+						}
+					}
+					if sc := call.Common().StaticCallee(); sc != nil && sc.Pkg == fn.Pkg && len(sc.Blocks) > 0 {
+						walk(sc, d+1)
+					}
+				}
+			}
+		}
+		walk(fn, 0)
+		// fields of the node filled by a join at construction time are seen through the constructor: any function
+		// of the package that stores into a field of this node type a value computed by strings.Join / a Builder
+		if found == "" {
+			for _, g := range c.prodFuncs("ast") {
+				for _, b := range g.Blocks {
+					for _, in := range b.Instrs {
+						st, ok := in.(*ssa.Store)
+						if !ok {
+							continue
+						}
+						fa, ok := st.Addr.(*ssa.FieldAddr)
+						if !ok || namedOf(deref(fa.X.Type())) != nm {
+							continue
+						}
+						if k, isCall := st.Val.(*ssa.Call); isCall {
+							if cal, _ := calleeOf(&k.Call); cal != nil && cal.Pkg() != nil && (cal.Pkg().Path() == "strings" || cal.Pkg().Path() == "bytes") {
+								found, pos = "a field filled by "+cal.Pkg().Name()+"."+cal.Name()+" in "+FnName(g), p.Pos(st.Pos())
+							}
+						}
+					}
+				}
+			}
+		}
+		c.Check(found == "", rule, FnName(fn), pos, "membership is decided element by element, with no substring or join primitive", "the `in` evaluator decides membership through "+found+": a substring test over joined elements is element equality only while no element and no field value can contain the separator — every character, line feed included, can be written in a literal through an escape and stored in a field")
+	}
+	c.CallSites(n)
+	c.Floor(rule, 3)
+}
+
+// ruleBucketMemoInvalidated (BUCKETMEMO): a struct of package boltz that remembers resolved child buckets in a
+// map drops the entry wherever one of its methods deletes a nested bucket — bbolt's DeleteBucket leaves earlier
+// handles to that bucket pointing at freed pages, so a remembered handle enumerates the elements the bucket had
+// before it was replaced (SetStringList, PutMap and PutList replace by delete-and-recreate).
+func ruleBucketMemoInvalidated(c *Ctx, rule string) {
+	p := c.P
+	pkg := p.pkg("boltz")
+	if pkg == nil {
+		c.Undecided(rule, "boltz", "-", "package not loaded")
+		return
+	}
+	isBucketPtr := func(t types.Type) bool {
+		nm := namedOf(deref(t))
+		return nm != nil && (nm.Obj().Name() == "TypedBucket" || nm.Obj().Name() == "Bucket")
+	}
+	scope := pkg.Types.Scope()
+	n := 0
+	for _, name := range scope.Names() {
+		tn, ok := scope.Lookup(name).(*types.TypeName)
+		if !ok {
+			continue
+		}
+		named, ok := tn.Type().(*types.Named)
+		if !ok {
+			continue
+		}
+		st, ok := named.Underlying().(*types.Struct)
+		if !ok {
+			continue
+		}
+		var memo []*types.Var
+		for i := 0; i < st.NumFields(); i++ {
+			if m, isMap := st.Field(i).Type().Underlying().(*types.Map); isMap && isBucketPtr(m.Elem()) {
+				memo = append(memo, st.Field(i))
+			}
+		}
+		if len(memo) == 0 {
+			continue
+		}
+		for _, fn := range c.prodFuncs("boltz") {
+			if fn.Signature.Recv() == nil || namedOf(fn.Signature.Recv().Type()) == nil || namedOf(fn.Signature.Recv().Type()).Origin() != named.Origin() {
+				continue
+			}
+			deletes := ssa.Instruction(nil)
+			for _, call := range callsIn(fn) {
+				if cal, _ := calleeOf(call.Common()); cal != nil && cal.Name() == "DeleteBucket" {
+					deletes = call
+				}
+			}
+			if deletes == nil {
+				continue
+			}
+			n++
+			c.Analysed(FnName(fn))
+			touched := false
+			for _, b := range fn.Blocks {
+				for _, in := range b.Instrs {
+					var m ssa.Value
+					switch x := in.(type) {
+					case *ssa.MapUpdate:
+						m = x.Map
+					case *ssa.Call:
+						if bi, isB := x.Call.Value.(*ssa.Builtin); isB && (bi.Name() == "delete" || bi.Name() == "clear") && len(x.Call.Args) > 0 {
+							m = x.Call.Args[0]
+						}
+					case *ssa.Store:
+						if f, _ := fieldOfAddr(x.Addr); f != nil {
+							for _, mf := range memo {
+								if sameVar(f, mf) {
+									touched = true
+								}
+							}
+						}
+					}
+					if m != nil {
+						if f, _ := loadedField(m); f != nil {
+							for _, mf := range memo {
+								if sameVar(f, mf) {
+									touched = true
+								}
+							}
+						}
+					}
+				}
+			}
+			c.Check(touched, rule, FnName(fn)+": DeleteBucket with remembered children in "+named.Obj().Name()+"."+memo[0].Name(), p.Pos(deletes.Pos()), "the remembered handle is dropped where the nested bucket is deleted", "a nested bucket is deleted while "+named.Obj().Name()+"."+memo[0].Name()+" still remembers handles of resolved children and is not touched here: a later lookup through the same handle answers the deleted bucket, and a cursor opened on it enumerates the elements the set had before it was replaced")
+		}
+	}
+	if n == 0 {
+		c.OK(rule, "boltz: structs remembering child buckets", "-", "no struct of boltz remembers resolved child buckets in a map")
+	}
+	c.CallSites(n)
+}
+
+// ruleFreshIndexingContext (FRESHCTX): an indexing context is made for one entity. One made outside a loop is
+// not used inside it: the per-constraint state it carries (AtomStates, the old values the before-hooks
+// remembered) belongs to the previous entity, and the after-hook of the next one removes the index entry that
+// was just written for the previous.
+func ruleFreshIndexingContext(c *Ctx, rule string) {
+	p := c.P
+	n := 0
+	for _, fn := range c.prodFuncs("boltz") {
+		for _, f := range allFuncsWithAnon(fn) {
+			loops := loopsOf(f)
+			for _, call := range callsIn(f) {
+				cv, isVal := call.(*ssa.Call)
+				if !isVal {
+					continue
+				}
+				cal, _ := calleeOf(call.Common())
+				if cal == nil || cal.Name() != "newIndexingContext" {
+					continue
+				}
+				n++
+				c.Analysed(FnName(fn))
+				var badUse ssa.Instruction
+				seen := map[ssa.Value]bool{}
+				var follow func(v ssa.Value, d int)
+				follow = func(v ssa.Value, d int) {
+					if seen[v] || d > 4 || v.Referrers() == nil {
+						return
+					}
+					seen[v] = true
+					for _, r := range *v.Referrers() {
+						if _, isDbg := r.(*ssa.DebugRef); isDbg {
+							continue
+						}
+						if phi, isPhi := r.(*ssa.Phi); isPhi {
+							follow(phi, d+1)
+							continue
+						}
+						for _, l := range loops {
+							if l.Blocks[r.Block()] && !l.Blocks[cv.Block()] && badUse == nil {
+								badUse = r
+							}
+						}
+					}
+				}
+				follow(cv, 0)
+				pos := p.Pos(call.Pos())
+				why := ""
+				if badUse != nil {
+					why = "the indexing context made here is used inside a loop it was made outside of (" + describeInstr(badUse) + " at " + p.Pos(badUse.Pos()) + "): the state the constraints keep in it (AtomStates: the old values remembered by the before-hooks) is carried from one entity to the next — repairing the second entity removes the index entry just written for the first"
+				}
+				c.Check(badUse == nil, rule, FnName(f)+": "+describeInstr(call), pos, "the indexing context is made in the iteration that uses it (or used outside any loop)", why)
+			}
+		}
+	}
+	c.CallSites(n)
+	c.Floor(rule, 3)
+}
